@@ -67,6 +67,7 @@ class EvalCall:
     active: NDArray[np.bool_] | None = None
     objectives: NDArray[np.float64] | None = None
     constraints: NDArray[np.float64] | None = None
+    info: NDArray[np.float64] | None = None
 
 
 class TableEvaluator:
@@ -95,7 +96,10 @@ class TableEvaluator:
         hook: Callable[[int, "TableEvaluator"], None] | None = None,
         batch_ids: bool = False,
         pooled: bool = False,
+        info: bool = False,
     ) -> None:
+        # info: return evaluation_info {"tag": unique float per (call, row)} so that the per-row metadata can be traced
+        self.info = info
         # pooled: the returned arrays are READ-ONLY views of internal buffers that are refilled on every call
         self.pooled = pooled
         self._pool: dict[str, np.ndarray] = {}
@@ -180,10 +184,15 @@ class TableEvaluator:
             objectives = self._to_pool("objectives", objectives)
             if constraints is not None:
                 constraints = self._to_pool("constraints", constraints)
+        extra: dict[str, Any] = {}
+        if self.info:
+            call.info = 1000.0 * (call_index + 1) + np.arange(n_rows, dtype=np.float64)
+            extra["evaluation_info"] = {"tag": call.info.copy()}
         result = EvaluatorResult(
             objectives=objectives,
             constraints=constraints,
             batch_id=call_index if self.batch_ids else None,
+            **extra,
         )
         call.objectives = objectives.copy()
         call.constraints = None if constraints is None else constraints.copy()
